@@ -203,6 +203,10 @@ class Ctx:
         subprocess.check_call(['rsync', '-a', '--delete', '--exclude', 'target', '--exclude', '.git', repo.rstrip('/') + '/', src + '/'])
         env = dict(os.environ, CARGO_NET_OFFLINE='true')
         env.pop('RUSTFLAGS', None)
+        import fcntl
+        lockf = open(os.path.join(root, 'kani.lock'), 'w')
+        fcntl.flock(lockf, fcntl.LOCK_EX)          # one Kani build/run at a time (shared scratch copy and target dir)
+        subprocess.check_call(['rsync', '-a', '--delete', '--exclude', 'target', '--exclude', '.git', repo.rstrip('/') + '/', src + '/'])
         t0 = time.time()
         cmd = ['cargo', 'kani', '--no-default-features', '--harness', harness, '--target-dir', os.path.join(root, 'target')]
         try:
